@@ -321,11 +321,17 @@ static void wakeup_rounds_body(const WakeCase &c, pbt::Ctx &ctx)
       }
     }
     if (!done) {
-      // not executed after 2 s without caller action: kick the scheduler and see whether it runs then
+      // Not executed after 2 s.  On a heavily loaded machine that may still be slowness: keep idling (no caller
+      // action) for another 15 s; a task that runs by itself in that time is only counted as slow.
+      if (waitUntil([&] { return ran->load() > before; }, 15.0)) {
+        ctx.label("slow-start(>2s)");
+        continue;
+      }
+      // still not executed after 17 s without caller action: kick the scheduler and see whether it runs then
       auto kicked = std::make_shared<std::atomic<int>>(0);
       schedule([kicked]() { kicked->fetch_add(1); });
       bool after = waitUntil([&] { return ran->load() > before; }, 5.0);
-      PBT_FAIL("round " << r << " of " << rounds << " with " << threads << " tasking threads: a scheduled function was not executed within 2 s while the caller only polled"
+      PBT_FAIL("round " << r << " of " << rounds << " with " << threads << " tasking threads: a scheduled function was not executed within 17 s while the caller only polled"
                         << (after ? "; it ran as soon as the caller scheduled another task (lost wake-up)" : " and not even after another task was scheduled"));
     }
     // sweep the delay so that the next schedule() lands around the time the worker goes to sleep
@@ -432,6 +438,7 @@ static void register_properties()
   auto wc = gen::build<WakeCase>(gen::set(&WakeCase::threads, gen::weightedElement<int>({{4, 2}, {1, 1}, {1, 3}, {1, 4}})), gen::set(&WakeCase::rounds, pbt::range<int>(2000, 20000)),
       gen::set(&WakeCase::maxDelayUs, gen::element<int>(5, 20, 60, 200)), gen::set(&WakeCase::viaAsync, pbt::range<int>(0, 1)));
   pbt::property<WakeCase>("wakeup_rounds", 12, wc, wakeup_rounds);
+  pbt::registry().back()->noShrink = true;
 #else
   pbt::property<Case>("tasks", 400, genCase(), run_case);
 #endif
